@@ -1,15 +1,1054 @@
-//! Engine `fuzz` — not built yet (stub).
+//! Engine `fuzz` (C16): arbitrary strings and hostile statements through the public API
+//! (`Database::execute` / `Session::execute`) of a small pre-populated database.
+//!
+//! Case (one self-contained sequence per line):
+//!     `fz <mode> <pool> <schema> | op ; op ; …`
+//!   mode   = `db` (every statement through `Database::execute`, autocommit) | `sess` (through one `Session`)
+//!   pool   = pool size of the database (1..8)
+//!   schema = `t1:id.I,a.i,b.t/t2:…`  tables `/`-separated, columns `name.type`, types i=INT I=BIGINT u=UINT U=BIGUINT
+//!            f=FLOAT d=DOUBLE t=TEXT b=BOOLEAN; every table is created and given `ROWS_PER_TABLE` rows
+//!   op     = `x:<hex>`      a string offered as SQL (bytes, lossily decoded)
+//!          | `q:<tokens>`   a well-formed statement of the small grammar below (comma-separated prefix tokens)
+//!
+//! Per op the engine runs the statement, notes any panic in any thread (`panic@file:line`), then checks that a probe
+//! `SELECT` on the same database (and session) still answers and that, when the statement failed, a dump of all
+//! tables is unchanged.  Output: one word per op — `ok-or-error` (the call returned a result or an error and the
+//! checks passed), or the outcome class `rows|count|ddl|error` for a `q` op whose class the Lean model predicts —
+//! or, as soon as something is wrong, `PROPFAIL <what> op=<k> …`.
+use super::pool::scratch_dir;
 use super::{Case, Engine, Tier};
 use crate::rng::Rng;
+use crate::util::{hex_or_dash, unhex};
+use axmosdb::runtime::QueryResult;
+use axmosdb::tcp::session::Session;
+use axmosdb::{DBConfig, Database};
+use std::collections::hash_map::DefaultHasher;
+use std::hash::{Hash, Hasher};
+use std::sync::{Mutex, Once};
 
 pub struct FuzzEngine;
 
-impl Engine for FuzzEngine {
-    fn gen_cases(&self, _rng: &mut Rng, _tier: Tier) -> Vec<Case> {
-        Vec::new()
+pub const ROWS_PER_TABLE: i64 = 3;
+const PROBE_TABLE: &str = "zz_probe";
+/// names (besides the schema's tables) whose presence/content is part of the state dump
+const EXTRA_TABLES: [&str; 3] = ["t9", "nt", "tmp"];
+
+// ------------------------------------------------------------------------------------------------ panic capture
+
+static PANICS: Mutex<Vec<String>> = Mutex::new(Vec::new());
+static HOOK: Once = Once::new();
+
+fn install_hook() {
+    HOOK.call_once(|| {
+        let prev = std::panic::take_hook();
+        std::panic::set_hook(Box::new(move |info| {
+            let loc = info
+                .location()
+                .map(|l| {
+                    let f = l.file();
+                    let f = f.rsplit_once("/src/").map(|x| x.1).unwrap_or(f);
+                    format!("{}:{}", f, l.line())
+                })
+                .unwrap_or_else(|| "?".into());
+            if let Ok(mut p) = PANICS.lock() {
+                p.push(loc);
+            }
+            prev(info);
+        }));
+    });
+}
+
+fn take_panics() -> Vec<String> {
+    PANICS.lock().map(|mut p| std::mem::take(&mut *p)).unwrap_or_default()
+}
+
+// ------------------------------------------------------------------------------------------------ grammar
+
+#[derive(Clone, Debug, PartialEq)]
+pub enum E {
+    Col(String),
+    Int(i64),
+    Str(Vec<u8>),
+    /// value = n / 2, printed `k.0` or `k.5`
+    Dbl(i64),
+    Null,
+    Bool(bool),
+    Bin(&'static str, Box<E>, Box<E>),
+    Un(&'static str, Box<E>),
+    Fn(String, Vec<E>),
+    Agg(String, Box<E>),
+    CountStar,
+    /// (when, then)*, else
+    Case(Vec<(E, E)>, Option<Box<E>>),
+    Between(bool, Box<E>, Box<E>, Box<E>),
+    In(bool, Box<E>, Vec<E>),
+    Exists(String),
+    InSub(String, String, Box<E>),
+    SSub(String, String),
+}
+
+#[derive(Clone, Debug, PartialEq)]
+pub enum Q {
+    Sel { tbl: String, items: Vec<E>, wh: Option<E>, group: Option<String>, having: Option<E>, order: Option<String>, limit: Option<u32> },
+    Ins { tbl: String, vals: Vec<E> },
+    Upd { tbl: String, col: String, val: E, wh: Option<E> },
+    Del { tbl: String, wh: Option<E> },
+}
+
+const BINOPS: [(&str, &str); 16] = [
+    ("add", "+"), ("sub", "-"), ("mul", "*"), ("div", "/"), ("mod", "%"), ("eq", "="), ("ne", "!="), ("lt", "<"),
+    ("le", "<="), ("gt", ">"), ("ge", ">="), ("and", "AND"), ("or", "OR"), ("cat", "||"), ("like", "LIKE"),
+    ("nlike", "NOT LIKE"),
+];
+const UNOPS: [&str; 4] = ["not", "neg", "isnull", "notnull"];
+
+fn is_name(s: &str) -> bool {
+    let b = s.as_bytes();
+    !b.is_empty()
+        && b.len() <= 20
+        && (b[0].is_ascii_lowercase() || b[0] == b'_')
+        && b.iter().all(|c| c.is_ascii_lowercase() || c.is_ascii_digit() || *c == b'_')
+}
+fn is_upper(s: &str) -> bool {
+    !s.is_empty() && s.len() <= 20 && s.bytes().all(|c| c.is_ascii_uppercase())
+}
+fn parse_int(s: &str) -> Option<i64> {
+    let d = s.strip_prefix('-').unwrap_or(s);
+    if d.is_empty() || d.len() > 19 || !d.bytes().all(|c| c.is_ascii_digit()) {
+        return None;
     }
-    fn exec(&mut self, _line: &str) -> String {
-        "unimplemented".into()
+    s.parse().ok()
+}
+fn parse_small(s: &str) -> Option<usize> {
+    if s.is_empty() || s.len() > 3 || !s.bytes().all(|c| c.is_ascii_digit()) {
+        return None;
+    }
+    s.parse().ok()
+}
+
+struct Toks<'a> {
+    t: Vec<&'a str>,
+    i: usize,
+}
+impl<'a> Toks<'a> {
+    fn next(&mut self) -> Option<&'a str> {
+        let r = self.t.get(self.i).copied();
+        self.i += 1;
+        r
+    }
+}
+
+fn parse_e(ts: &mut Toks, depth: usize) -> Option<E> {
+    if depth > 64 {
+        return None;
+    }
+    let t = ts.next()?;
+    if let Some((_, _)) = BINOPS.iter().find(|(n, _)| *n == t) {
+        let name = BINOPS.iter().find(|(n, _)| *n == t).unwrap().0;
+        let a = parse_e(ts, depth + 1)?;
+        let b = parse_e(ts, depth + 1)?;
+        return Some(E::Bin(name, Box::new(a), Box::new(b)));
+    }
+    if let Some(name) = UNOPS.iter().find(|n| **n == t) {
+        let a = parse_e(ts, depth + 1)?;
+        return Some(E::Un(name, Box::new(a)));
+    }
+    match t {
+        "n" => return Some(E::Null),
+        "t" => return Some(E::Bool(true)),
+        "f" => return Some(E::Bool(false)),
+        "cntstar" => return Some(E::CountStar),
+        "btw" | "nbtw" => {
+            let a = parse_e(ts, depth + 1)?;
+            let b = parse_e(ts, depth + 1)?;
+            let c = parse_e(ts, depth + 1)?;
+            return Some(E::Between(t == "nbtw", Box::new(a), Box::new(b), Box::new(c)));
+        }
+        _ => {}
+    }
+    let parts: Vec<&str> = t.split('.').collect();
+    match parts.as_slice() {
+        ["c", n] if is_name(n) => Some(E::Col(n.to_string())),
+        ["i", v] => parse_int(v).map(E::Int),
+        ["d", v] => parse_int(v).map(E::Dbl),
+        ["s", h] => unhex(h).map(E::Str),
+        ["fn", name, k] if is_upper(name) => {
+            let k = parse_small(k)?;
+            let mut args = Vec::new();
+            for _ in 0..k {
+                args.push(parse_e(ts, depth + 1)?);
+            }
+            Some(E::Fn(name.to_string(), args))
+        }
+        ["agg", name] if is_upper(name) => Some(E::Agg(name.to_string(), Box::new(parse_e(ts, depth + 1)?))),
+        ["case", k] | ["casex", k] => {
+            let k = parse_small(k)?;
+            let mut arms = Vec::new();
+            for _ in 0..k {
+                let w = parse_e(ts, depth + 1)?;
+                let th = parse_e(ts, depth + 1)?;
+                arms.push((w, th));
+            }
+            let els = if parts[0] == "case" { Some(Box::new(parse_e(ts, depth + 1)?)) } else { None };
+            Some(E::Case(arms, els))
+        }
+        ["in", k] | ["nin", k] => {
+            let k = parse_small(k)?;
+            let a = parse_e(ts, depth + 1)?;
+            let mut xs = Vec::new();
+            for _ in 0..k {
+                xs.push(parse_e(ts, depth + 1)?);
+            }
+            Some(E::In(parts[0] == "nin", Box::new(a), xs))
+        }
+        ["ex", tb] if is_name(tb) => Some(E::Exists(tb.to_string())),
+        ["insub", tb, c] if is_name(tb) && is_name(c) => {
+            Some(E::InSub(tb.to_string(), c.to_string(), Box::new(parse_e(ts, depth + 1)?)))
+        }
+        ["ssub", tb, c] if is_name(tb) && is_name(c) => Some(E::SSub(tb.to_string(), c.to_string())),
+        _ => None,
+    }
+}
+
+fn parse_where(ts: &mut Toks) -> Option<Option<E>> {
+    match ts.next()? {
+        "nw" => Some(None),
+        "w" => Some(Some(parse_e(ts, 0)?)),
+        _ => None,
+    }
+}
+
+pub fn parse_q(s: &str) -> Option<Q> {
+    let mut ts = Toks { t: s.split(',').collect(), i: 0 };
+    let q = match ts.next()? {
+        "sel" => {
+            let tbl = ts.next().filter(|n| is_name(n))?.to_string();
+            let k = parse_small(ts.next()?)?;
+            if k == 0 {
+                return None;
+            }
+            let mut items = Vec::new();
+            for _ in 0..k {
+                items.push(parse_e(&mut ts, 0)?);
+            }
+            let wh = parse_where(&mut ts)?;
+            let group = match ts.next()? {
+                "ng" => None,
+                g => Some(g.strip_prefix("g.").filter(|n| is_name(n))?.to_string()),
+            };
+            let having = match ts.next()? {
+                "nh" => None,
+                "h" => Some(parse_e(&mut ts, 0)?),
+                _ => return None,
+            };
+            let order = match ts.next()? {
+                "no" => None,
+                o => Some(o.strip_prefix("o.").filter(|n| is_name(n))?.to_string()),
+            };
+            let limit = match ts.next()? {
+                "nl" => None,
+                l => Some(parse_small(l.strip_prefix("l.")?)? as u32),
+            };
+            Q::Sel { tbl, items, wh, group, having, order, limit }
+        }
+        "ins" => {
+            let tbl = ts.next().filter(|n| is_name(n))?.to_string();
+            let k = parse_small(ts.next()?)?;
+            if k == 0 {
+                return None;
+            }
+            let mut vals = Vec::new();
+            for _ in 0..k {
+                vals.push(parse_e(&mut ts, 0)?);
+            }
+            Q::Ins { tbl, vals }
+        }
+        "upd" => {
+            let tbl = ts.next().filter(|n| is_name(n))?.to_string();
+            let col = ts.next().filter(|n| is_name(n))?.to_string();
+            let val = parse_e(&mut ts, 0)?;
+            let wh = parse_where(&mut ts)?;
+            Q::Upd { tbl, col, val, wh }
+        }
+        "del" => {
+            let tbl = ts.next().filter(|n| is_name(n))?.to_string();
+            let wh = parse_where(&mut ts)?;
+            Q::Del { tbl, wh }
+        }
+        _ => return None,
+    };
+    if ts.i != ts.t.len() {
+        return None;
+    }
+    Some(q)
+}
+
+// ---- printing: tokens (for the case line) and SQL (for the database)
+
+fn tok_e(e: &E, out: &mut Vec<String>) {
+    match e {
+        E::Col(n) => out.push(format!("c.{n}")),
+        E::Int(v) => out.push(format!("i.{v}")),
+        E::Dbl(v) => out.push(format!("d.{v}")),
+        E::Str(b) => out.push(format!("s.{}", hex_or_dash(b))),
+        E::Null => out.push("n".into()),
+        E::Bool(b) => out.push(if *b { "t" } else { "f" }.into()),
+        E::Bin(op, a, b) => {
+            out.push(op.to_string());
+            tok_e(a, out);
+            tok_e(b, out);
+        }
+        E::Un(op, a) => {
+            out.push(op.to_string());
+            tok_e(a, out);
+        }
+        E::Fn(n, args) => {
+            out.push(format!("fn.{}.{}", n, args.len()));
+            for a in args {
+                tok_e(a, out);
+            }
+        }
+        E::Agg(n, a) => {
+            out.push(format!("agg.{n}"));
+            tok_e(a, out);
+        }
+        E::CountStar => out.push("cntstar".into()),
+        E::Case(arms, els) => {
+            out.push(format!("{}.{}", if els.is_some() { "case" } else { "casex" }, arms.len()));
+            for (w, t) in arms {
+                tok_e(w, out);
+                tok_e(t, out);
+            }
+            if let Some(e) = els {
+                tok_e(e, out);
+            }
+        }
+        E::Between(neg, a, b, c) => {
+            out.push(if *neg { "nbtw" } else { "btw" }.into());
+            tok_e(a, out);
+            tok_e(b, out);
+            tok_e(c, out);
+        }
+        E::In(neg, a, xs) => {
+            out.push(format!("{}.{}", if *neg { "nin" } else { "in" }, xs.len()));
+            tok_e(a, out);
+            for x in xs {
+                tok_e(x, out);
+            }
+        }
+        E::Exists(t) => out.push(format!("ex.{t}")),
+        E::InSub(t, c, a) => {
+            out.push(format!("insub.{t}.{c}"));
+            tok_e(a, out);
+        }
+        E::SSub(t, c) => out.push(format!("ssub.{t}.{c}")),
+    }
+}
+
+fn tok_where(w: &Option<E>, out: &mut Vec<String>) {
+    match w {
+        None => out.push("nw".into()),
+        Some(e) => {
+            out.push("w".into());
+            tok_e(e, out);
+        }
+    }
+}
+
+pub fn tok_q(q: &Q) -> String {
+    let mut out = Vec::new();
+    match q {
+        Q::Sel { tbl, items, wh, group, having, order, limit } => {
+            out.push("sel".into());
+            out.push(tbl.clone());
+            out.push(items.len().to_string());
+            for e in items {
+                tok_e(e, &mut out);
+            }
+            tok_where(wh, &mut out);
+            out.push(group.as_ref().map(|g| format!("g.{g}")).unwrap_or("ng".into()));
+            match having {
+                None => out.push("nh".into()),
+                Some(e) => {
+                    out.push("h".into());
+                    tok_e(e, &mut out);
+                }
+            }
+            out.push(order.as_ref().map(|g| format!("o.{g}")).unwrap_or("no".into()));
+            out.push(limit.map(|l| format!("l.{l}")).unwrap_or("nl".into()));
+        }
+        Q::Ins { tbl, vals } => {
+            out.push("ins".into());
+            out.push(tbl.clone());
+            out.push(vals.len().to_string());
+            for e in vals {
+                tok_e(e, &mut out);
+            }
+        }
+        Q::Upd { tbl, col, val, wh } => {
+            out.push("upd".into());
+            out.push(tbl.clone());
+            out.push(col.clone());
+            tok_e(val, &mut out);
+            tok_where(wh, &mut out);
+        }
+        Q::Del { tbl, wh } => {
+            out.push("del".into());
+            out.push(tbl.clone());
+            tok_where(wh, &mut out);
+        }
+    }
+    out.join(",")
+}
+
+fn sql_str(b: &[u8]) -> String {
+    format!("'{}'", String::from_utf8_lossy(b).replace('\'', "''"))
+}
+
+fn sql_e(e: &E) -> String {
+    match e {
+        E::Col(n) => n.clone(),
+        E::Int(v) => v.to_string(),
+        E::Dbl(v) => format!("{}{}.{}", if *v < 0 { "-" } else { "" }, v.unsigned_abs() / 2, if v % 2 == 0 { 0 } else { 5 }),
+        E::Str(b) => sql_str(b),
+        E::Null => "NULL".into(),
+        E::Bool(b) => if *b { "TRUE" } else { "FALSE" }.into(),
+        E::Bin(op, a, b) => {
+            let s = BINOPS.iter().find(|(n, _)| n == op).unwrap().1;
+            format!("({} {} {})", sql_e(a), s, sql_e(b))
+        }
+        E::Un(op, a) => match *op {
+            "not" => format!("(NOT {})", sql_e(a)),
+            "neg" => format!("(- {})", sql_e(a)),
+            "isnull" => format!("({} IS NULL)", sql_e(a)),
+            _ => format!("({} IS NOT NULL)", sql_e(a)),
+        },
+        E::Fn(n, args) => format!("{}({})", n, args.iter().map(sql_e).collect::<Vec<_>>().join(", ")),
+        E::Agg(n, a) => format!("{}({})", n, sql_e(a)),
+        E::CountStar => "COUNT(*)".into(),
+        E::Case(arms, els) => {
+            let mut s = "CASE".to_string();
+            for (w, t) in arms {
+                s.push_str(&format!(" WHEN {} THEN {}", sql_e(w), sql_e(t)));
+            }
+            if let Some(e) = els {
+                s.push_str(&format!(" ELSE {}", sql_e(e)));
+            }
+            s + " END"
+        }
+        E::Between(neg, a, b, c) => {
+            format!("({} {}BETWEEN {} AND {})", sql_e(a), if *neg { "NOT " } else { "" }, sql_e(b), sql_e(c))
+        }
+        E::In(neg, a, xs) => format!(
+            "({} {}IN ({}))",
+            sql_e(a),
+            if *neg { "NOT " } else { "" },
+            xs.iter().map(sql_e).collect::<Vec<_>>().join(", ")
+        ),
+        E::Exists(t) => format!("EXISTS (SELECT * FROM {t})"),
+        E::InSub(t, c, a) => format!("({} IN (SELECT {c} FROM {t}))", sql_e(a)),
+        E::SSub(t, c) => format!("(SELECT {c} FROM {t})"),
+    }
+}
+
+pub fn sql_q(q: &Q) -> String {
+    match q {
+        Q::Sel { tbl, items, wh, group, having, order, limit } => {
+            let mut s = format!("SELECT {} FROM {}", items.iter().map(sql_e).collect::<Vec<_>>().join(", "), tbl);
+            if let Some(w) = wh {
+                s.push_str(&format!(" WHERE {}", sql_e(w)));
+            }
+            if let Some(g) = group {
+                s.push_str(&format!(" GROUP BY {g}"));
+            }
+            if let Some(h) = having {
+                s.push_str(&format!(" HAVING {}", sql_e(h)));
+            }
+            if let Some(o) = order {
+                s.push_str(&format!(" ORDER BY {o}"));
+            }
+            if let Some(l) = limit {
+                s.push_str(&format!(" LIMIT {l}"));
+            }
+            s
+        }
+        Q::Ins { tbl, vals } => format!("INSERT INTO {} VALUES ({})", tbl, vals.iter().map(sql_e).collect::<Vec<_>>().join(", ")),
+        Q::Upd { tbl, col, val, wh } => {
+            let mut s = format!("UPDATE {} SET {} = {}", tbl, col, sql_e(val));
+            if let Some(w) = wh {
+                s.push_str(&format!(" WHERE {}", sql_e(w)));
+            }
+            s
+        }
+        Q::Del { tbl, wh } => {
+            let mut s = format!("DELETE FROM {tbl}");
+            if let Some(w) = wh {
+                s.push_str(&format!(" WHERE {}", sql_e(w)));
+            }
+            s
+        }
+    }
+}
+
+// ---- schema
+
+#[derive(Clone, Debug)]
+pub struct Table {
+    pub name: String,
+    pub cols: Vec<(String, char)>,
+}
+
+const TYPES: [(char, &str); 8] = [
+    ('i', "INT"), ('I', "BIGINT"), ('u', "UINT"), ('U', "BIGUINT"), ('f', "FLOAT"), ('d', "DOUBLE"), ('t', "TEXT"), ('b', "BOOLEAN"),
+];
+
+pub fn parse_schema(s: &str) -> Option<Vec<Table>> {
+    let mut out: Vec<Table> = Vec::new();
+    for t in s.split('/') {
+        let (name, cols) = t.split_once(':')?;
+        if !is_name(name) || name == PROBE_TABLE || out.iter().any(|x| x.name == name) {
+            return None;
+        }
+        let mut cs: Vec<(String, char)> = Vec::new();
+        for c in cols.split(',') {
+            let (cn, ty) = c.split_once('.')?;
+            let mut it = ty.chars();
+            let tc = it.next()?;
+            if it.next().is_some() || !is_name(cn) || !TYPES.iter().any(|(k, _)| *k == tc) || cs.iter().any(|x| x.0 == cn) {
+                return None;
+            }
+            cs.push((cn.to_string(), tc));
+        }
+        if cs.is_empty() || cs.len() > 8 {
+            return None;
+        }
+        out.push(Table { name: name.to_string(), cols: cs });
+    }
+    if out.is_empty() || out.len() > 4 {
+        return None;
+    }
+    Some(out)
+}
+
+fn show_schema(ts: &[Table]) -> String {
+    ts.iter()
+        .map(|t| format!("{}:{}", t.name, t.cols.iter().map(|(n, c)| format!("{n}.{c}")).collect::<Vec<_>>().join(",")))
+        .collect::<Vec<_>>()
+        .join("/")
+}
+
+fn lit_for(ty: char, row: i64, col: usize) -> String {
+    match ty {
+        'i' | 'I' | 'u' | 'U' => if col == 0 { row.to_string() } else { (row * 10 + col as i64).to_string() },
+        'f' | 'd' => format!("{}.5", row + col as i64),
+        't' => format!("'r{}c{}'", row, col),
+        _ => if (row + col as i64) % 2 == 0 { "TRUE" } else { "FALSE" }.to_string(),
+    }
+}
+
+// ---- classification shared with the Lean model (`Model/Fuzz.lean`: `classify`)
+
+#[derive(Clone, Copy, PartialEq, Debug)]
+pub enum Class {
+    Rows,
+    Error,
+}
+
+fn cols_of_e<'a>(e: &'a E, out: &mut Vec<&'a str>, subs: &mut Vec<(&'a str, Option<&'a str>)>) {
+    match e {
+        E::Col(n) => out.push(n),
+        E::Bin(_, a, b) => {
+            cols_of_e(a, out, subs);
+            cols_of_e(b, out, subs);
+        }
+        E::Un(_, a) | E::Agg(_, a) => cols_of_e(a, out, subs),
+        E::Fn(_, xs) => xs.iter().for_each(|x| cols_of_e(x, out, subs)),
+        E::Case(arms, els) => {
+            for (w, t) in arms {
+                cols_of_e(w, out, subs);
+                cols_of_e(t, out, subs);
+            }
+            if let Some(x) = els {
+                cols_of_e(x, out, subs);
+            }
+        }
+        E::Between(_, a, b, c) => {
+            cols_of_e(a, out, subs);
+            cols_of_e(b, out, subs);
+            cols_of_e(c, out, subs);
+        }
+        E::In(_, a, xs) => {
+            cols_of_e(a, out, subs);
+            xs.iter().for_each(|x| cols_of_e(x, out, subs));
+        }
+        E::Exists(t) => subs.push((t, None)),
+        E::InSub(t, c, a) => {
+            subs.push((t, Some(c)));
+            cols_of_e(a, out, subs);
+        }
+        E::SSub(t, c) => subs.push((t, Some(c))),
+        _ => {}
+    }
+}
+
+/// only integer arithmetic over integer literals and integer columns: evaluated strictly, for every row
+fn strict_arith(e: &E, t: &Table) -> bool {
+    match e {
+        E::Int(_) => true,
+        E::Col(n) => t.cols.iter().any(|(c, ty)| c == n && matches!(ty, 'i' | 'I')),
+        E::Bin(op, a, b) => matches!(*op, "add" | "sub" | "mul" | "div" | "mod") && strict_arith(a, t) && strict_arith(b, t),
+        _ => false,
+    }
+}
+fn has_div0(e: &E) -> bool {
+    match e {
+        E::Bin(op, a, b) => (matches!(*op, "div" | "mod") && **b == E::Int(0)) || has_div0(a) || has_div0(b),
+        _ => false,
+    }
+}
+fn plain_item(e: &E) -> bool {
+    matches!(e, E::Col(_) | E::Int(_) | E::Str(_) | E::Null | E::Bool(_))
+}
+fn plain_where(e: &E, t: &Table) -> bool {
+    match e {
+        E::Bin(op, a, b) if matches!(*op, "eq" | "ne" | "lt" | "le" | "gt" | "ge") => match (&**a, &**b) {
+            (E::Col(n), lit) => match t.cols.iter().find(|(c, _)| c == n).map(|x| x.1) {
+                Some('i') | Some('I') => matches!(lit, E::Int(v) if v.unsigned_abs() < 1_000_000),
+                Some('t') => matches!(lit, E::Str(_)),
+                _ => false,
+            },
+            _ => false,
+        },
+        _ => false,
+    }
+}
+
+/// `Some(class)` when the outcome class of `q` is determined by the schema alone; `tainted` = an `x` op ran before.
+pub fn classify(schema: &[Table], q: &Q, tainted: bool, touched: &[String]) -> Option<Class> {
+    if tainted {
+        return None;
+    }
+    let tbl = match q {
+        Q::Sel { tbl, .. } | Q::Ins { tbl, .. } | Q::Upd { tbl, .. } | Q::Del { tbl, .. } => tbl,
+    };
+    let Some(t) = schema.iter().find(|t| &t.name == tbl) else { return Some(Class::Error) };
+    let mut cols = Vec::new();
+    let mut subs = Vec::new();
+    match q {
+        Q::Sel { items, wh, group, having, order, .. } => {
+            items.iter().for_each(|e| cols_of_e(e, &mut cols, &mut subs));
+            if let Some(w) = wh {
+                cols_of_e(w, &mut cols, &mut subs);
+            }
+            if let Some(h) = having {
+                cols_of_e(h, &mut cols, &mut subs);
+            }
+            if let Some(g) = group {
+                cols.push(g);
+            }
+            if let Some(o) = order {
+                cols.push(o);
+            }
+        }
+        Q::Ins { vals, .. } => vals.iter().for_each(|e| cols_of_e(e, &mut cols, &mut subs)),
+        Q::Upd { col, val, wh, .. } => {
+            cols.push(col);
+            cols_of_e(val, &mut cols, &mut subs);
+            if let Some(w) = wh {
+                cols_of_e(w, &mut cols, &mut subs);
+            }
+        }
+        Q::Del { wh, .. } => {
+            if let Some(w) = wh {
+                cols_of_e(w, &mut cols, &mut subs);
+            }
+        }
+    }
+    if cols.iter().any(|c| !t.cols.iter().any(|(n, _)| n == c)) {
+        return Some(Class::Error);
+    }
+    for (st, sc) in &subs {
+        match schema.iter().find(|t| t.name == *st) {
+            None => return Some(Class::Error),
+            Some(t2) => {
+                if let Some(c) = sc {
+                    if !t2.cols.iter().any(|(n, _)| n == c) {
+                        return Some(Class::Error);
+                    }
+                }
+            }
+        }
+    }
+    match q {
+        Q::Ins { vals, .. } => {
+            if vals.len() != t.cols.len() {
+                Some(Class::Error)
+            } else {
+                None
+            }
+        }
+        Q::Sel { items, wh, group, having, limit, .. } => {
+            if !subs.is_empty() || group.is_some() || having.is_some() || limit.is_some() {
+                return None;
+            }
+            if wh.is_none() && !touched.contains(tbl) && items.iter().all(|e| strict_arith(e, t)) && items.iter().any(has_div0) {
+                return Some(Class::Error);
+            }
+            if items.iter().all(plain_item) && wh.as_ref().is_none_or(|w| plain_where(w, t)) {
+                return Some(Class::Rows);
+            }
+            None
+        }
+        _ => None,
+    }
+}
+
+// ------------------------------------------------------------------------------------------------ case lines
+
+pub enum Op {
+    X(Vec<u8>),
+    Q(Q),
+}
+
+pub struct Parsed {
+    pub sess: bool,
+    pub pool: usize,
+    pub schema: Vec<Table>,
+    pub ops: Vec<Op>,
+}
+
+pub fn parse_line(line: &str) -> Option<Parsed> {
+    let (head, body) = line.split_once('|')?;
+    let hs: Vec<&str> = head.split_whitespace().collect();
+    let (mode, pool, schema) = match hs.as_slice() {
+        ["fz", m, p, s] => (*m, parse_small(p)?, parse_schema(s)?),
+        _ => return None,
+    };
+    let sess = match mode {
+        "db" => false,
+        "sess" => true,
+        _ => return None,
+    };
+    if pool == 0 || pool > 8 {
+        return None;
+    }
+    let mut ops = Vec::new();
+    for o in body.split(';') {
+        let o = o.trim();
+        if let Some(h) = o.strip_prefix("x:") {
+            ops.push(Op::X(unhex(h)?));
+        } else if let Some(t) = o.strip_prefix("q:") {
+            ops.push(Op::Q(parse_q(t)?));
+        } else {
+            return None;
+        }
+    }
+    if ops.len() > 2000 {
+        return None;
+    }
+    Some(Parsed { sess, pool, schema, ops })
+}
+
+// ------------------------------------------------------------------------------------------------ execution
+
+struct Env {
+    db: Database,
+    sess: Option<Session>,
+    tables: Vec<String>,
+    /// text of the last result (only kept when AXH_FUZZ_TRACE is set; for triage by hand)
+    last: String,
+    trace: bool,
+}
+
+#[derive(PartialEq, Debug, Clone, Copy)]
+enum Outcome {
+    Rows,
+    Count,
+    Ddl,
+    Error,
+}
+
+impl Env {
+    fn run(&mut self, sql: &str) -> (Outcome, Option<u64>) {
+        let r: Result<QueryResult, String> = match self.sess.as_mut() {
+            Some(s) => s.execute(sql).map_err(|e| e.to_string()),
+            None => self.db.execute(sql).map_err(|e| e.to_string()),
+        };
+        match r {
+            Ok(QueryResult::Rows(rows)) => {
+                let mut h = DefaultHasher::new();
+                let mut lines: Vec<String> = rows.iterrows().map(|r| format!("{:?}", r)).collect();
+                lines.sort();
+                lines.hash(&mut h);
+                if self.trace {
+                    self.last = format!("rows {:?}", lines);
+                }
+                (Outcome::Rows, Some(h.finish()))
+            }
+            Ok(QueryResult::RowsAffected(n)) => {
+                if self.trace {
+                    self.last = format!("count {n}");
+                }
+                (Outcome::Count, None)
+            }
+            Ok(QueryResult::Ddl(d)) => {
+                if self.trace {
+                    self.last = format!("ddl {:?}", d);
+                }
+                (Outcome::Ddl, None)
+            }
+            Err(e) => {
+                if self.trace {
+                    self.last = format!("error {e}");
+                }
+                (Outcome::Error, None)
+            }
+        }
+    }
+
+    /// hash of the content of every table of interest, through the path the statements take
+    fn dump(&mut self) -> u64 {
+        let mut h = DefaultHasher::new();
+        let names = self.tables.clone();
+        for t in names {
+            let (o, d) = self.run(&format!("SELECT * FROM {t}"));
+            (t, o == Outcome::Rows, d).hash(&mut h);
+        }
+        h.finish()
+    }
+
+    /// the probe table must answer with its two rows, through the session (if any) and through the database
+    fn probe(&mut self, expect: u64) -> Result<(), String> {
+        let q = format!("SELECT id, v FROM {PROBE_TABLE}");
+        let r: Result<QueryResult, String> = match self.sess.as_mut() {
+            Some(s) => s.execute(&q).map_err(|e| e.to_string()),
+            None => self.db.execute(&q).map_err(|e| e.to_string()),
+        };
+        match r {
+            Ok(QueryResult::Rows(rows)) => {
+                let mut h = DefaultHasher::new();
+                let mut lines: Vec<String> = rows.iterrows().map(|r| format!("{:?}", r)).collect();
+                lines.sort();
+                lines.hash(&mut h);
+                if h.finish() != expect {
+                    return Err(format!("probe rows differ: {:?}", lines));
+                }
+            }
+            Ok(_) => return Err("probe returned no rows result".into()),
+            Err(e) => return Err(format!("probe error: {e}")),
+        }
+        if self.sess.is_some() {
+            match self.db.execute(&q) {
+                Ok(QueryResult::Rows(r)) if r.len() == 2 => Ok(()),
+                Ok(QueryResult::Rows(r)) => Err(format!("db probe: {} rows", r.len())),
+                Ok(_) => Err("db probe: no rows result".into()),
+                Err(e) => Err(format!("db probe error: {e}")),
+            }
+        } else {
+            Ok(())
+        }
+    }
+}
+
+fn run_case(p: &Parsed, dir: &std::path::Path) -> String {
+    let cfg = DBConfig { pool_size: p.pool, ..DBConfig::default() };
+    let db = match Database::create(dir.join("f.db"), cfg) {
+        Ok(db) => db,
+        Err(_) => return "PROPFAIL cannot-create-database".into(),
+    };
+    let mut setup: Vec<String> = vec![
+        format!("CREATE TABLE {PROBE_TABLE} (id BIGINT, v INT)"),
+        format!("INSERT INTO {PROBE_TABLE} VALUES (1, 10)"),
+        format!("INSERT INTO {PROBE_TABLE} VALUES (2, 20)"),
+    ];
+    for t in &p.schema {
+        let cols: Vec<String> =
+            t.cols.iter().map(|(n, c)| format!("{} {}", n, TYPES.iter().find(|(k, _)| k == c).unwrap().1)).collect();
+        setup.push(format!("CREATE TABLE {} ({})", t.name, cols.join(", ")));
+        for r in 1..=ROWS_PER_TABLE {
+            let vals: Vec<String> = t.cols.iter().enumerate().map(|(i, (_, c))| lit_for(*c, r, i)).collect();
+            setup.push(format!("INSERT INTO {} VALUES ({})", t.name, vals.join(", ")));
+        }
+    }
+    take_panics();
+    for s in &setup {
+        if db.execute(s).is_err() {
+            let ps = take_panics();
+            return format!("PROPFAIL setup-failed {} ## {}", ps.first().map(|p| format!("panic@{p}")).unwrap_or_default(), s);
+        }
+    }
+    let sess = if p.sess {
+        match db.session() {
+            Ok(s) => Some(s),
+            Err(_) => return "PROPFAIL cannot-open-session".into(),
+        }
+    } else {
+        None
+    };
+    let mut tables: Vec<String> = p.schema.iter().map(|t| t.name.clone()).collect();
+    for e in EXTRA_TABLES {
+        if !tables.iter().any(|t| t == e) {
+            tables.push(e.to_string());
+        }
+    }
+    let mut env = Env { db, sess, tables, last: String::new(), trace: std::env::var("AXH_FUZZ_TRACE").is_ok() };
+    let (o, probe_hash) = env.run(&format!("SELECT id, v FROM {PROBE_TABLE}"));
+    let Some(probe_hash) = probe_hash.filter(|_| o == Outcome::Rows) else {
+        return "PROPFAIL setup-probe-failed".into();
+    };
+    let mut before = env.dump();
+    let ps = take_panics();
+    if let Some(pn) = ps.first() {
+        return format!("PROPFAIL panic@{pn} op=setup");
+    }
+    let mut words: Vec<String> = Vec::new();
+    let mut fails: Vec<String> = Vec::new();
+    let mut diag: Vec<String> = Vec::new();
+    let mut tally = [0usize; 4];
+    let mut tainted = false;
+    let mut touched: Vec<String> = Vec::new();
+    for (k, op) in p.ops.iter().enumerate() {
+        let (sql, pred) = match op {
+            Op::X(b) => {
+                tainted = true;
+                (String::from_utf8_lossy(b).into_owned(), None)
+            }
+            Op::Q(q) => {
+                let c = classify(&p.schema, q, tainted, &touched);
+                if let Q::Ins { tbl, .. } | Q::Upd { tbl, .. } | Q::Del { tbl, .. } = q {
+                    if !touched.contains(tbl) {
+                        touched.push(tbl.clone());
+                    }
+                }
+                (sql_q(q), Some(c))
+            }
+        };
+        let (outcome, _) = env.run(&sql);
+        tally[outcome as usize] += 1;
+        if env.trace {
+            diag.push(format!("[{}] {}", k, env.last.chars().take(300).collect::<String>()));
+        }
+        let panics = take_panics();
+        let probe_res = env.probe(probe_hash);
+        let probe_ok = probe_res.is_ok();
+        let after = env.dump();
+        let late = take_panics();
+        let mut what: Vec<String> = Vec::new();
+        if let Some(pn) = panics.first() {
+            what.push(format!("panic@{pn}"));
+        }
+        if !probe_ok {
+            what.push("probe-failed".into());
+            diag.push(format!("op {}: outcome {:?}; {}", k, outcome, probe_res.clone().unwrap_err()));
+        }
+        if outcome == Outcome::Error && after != before {
+            what.push("state-changed-on-error".into());
+        }
+        if let Some(pn) = late.first() {
+            what.push(format!("late-panic@{pn}"));
+        }
+        before = after;
+        if !what.is_empty() {
+            fails.push(format!("{} op={}", what.join(" "), k));
+            if !probe_ok || fails.len() >= 8 {
+                break;
+            }
+            words.push("failed".into());
+            continue;
+        }
+        words.push(match pred {
+            Some(Some(_)) => match outcome {
+                Outcome::Rows => "rows",
+                Outcome::Count => "count",
+                Outcome::Ddl => "ddl",
+                Outcome::Error => "error",
+            }
+            .to_string(),
+            _ => "ok-or-error".to_string(),
+        });
+    }
+    diag.insert(0, format!("rows={} count={} ddl={} error={}", tally[0], tally[1], tally[2], tally[3]));
+    if fails.is_empty() {
+        format!("{} ## {}", words.join(" "), diag.join(" | "))
+    } else {
+        format!("PROPFAIL {} ## {}", fails.join(" ; "), diag.join(" | ").replace('\n', " "))
+    }
+}
+
+fn clean_stale_dirs() {
+    let Ok(rd) = std::fs::read_dir(std::env::temp_dir()) else { return };
+    for e in rd.flatten() {
+        let name = e.file_name().to_string_lossy().into_owned();
+        if let Some(rest) = name.strip_prefix("axh-c16-") {
+            let mut it = rest.split('-');
+            let _tag = it.next();
+            if let Some(pid) = it.next().and_then(|p| p.parse::<u32>().ok()) {
+                if !std::path::Path::new(&format!("/proc/{pid}")).exists() {
+                    let _ = std::fs::remove_dir_all(e.path());
+                }
+            }
+        }
+    }
+}
+
+static CLEAN: Once = Once::new();
+
+/// Redirects file descriptor 1 to /dev/null for its lifetime.
+struct StdoutSilencer {
+    saved: i32,
+}
+impl StdoutSilencer {
+    fn new() -> Self {
+        use std::io::Write;
+        let _ = std::io::stdout().flush();
+        unsafe {
+            let saved = libc::dup(1);
+            let null = libc::open(c"/dev/null".as_ptr(), libc::O_WRONLY);
+            if saved >= 0 && null >= 0 {
+                libc::dup2(null, 1);
+            }
+            if null >= 0 {
+                libc::close(null);
+            }
+            StdoutSilencer { saved }
+        }
+    }
+}
+impl Drop for StdoutSilencer {
+    fn drop(&mut self) {
+        use std::io::Write;
+        let _ = std::io::stdout().flush();
+        unsafe {
+            if self.saved >= 0 {
+                libc::dup2(self.saved, 1);
+                libc::close(self.saved);
+            }
+        }
+    }
+}
+
+impl Engine for FuzzEngine {
+    fn exec(&mut self, line: &str) -> String {
+        install_hook();
+        CLEAN.call_once(clean_stale_dirs);
+        let Some(p) = parse_line(line) else { return "bad-op".into() };
+        let dir = scratch_dir("fuzz");
+        // the library prints to stdout on some paths (CREATE INDEX): keep that out of the line protocol
+        let guard = StdoutSilencer::new();
+        let out = run_case(&p, &dir);
+        drop(guard);
+        let _ = std::fs::remove_dir_all(&dir);
+        out
+    }
+
+    fn gen_cases(&self, rng: &mut Rng, tier: Tier) -> Vec<Case> {
+        generator::gen_cases(rng, tier)
+    }
+
+    fn timeout_ms(&self) -> u64 {
+        // a case is one whole sequence (up to ~300 statements); the supervisor retries a time-out once, so a busy
+        // machine does not turn into `hang`, and a real hang costs two time-outs
+        45_000
     }
 }
 
@@ -17,3 +1056,8 @@ impl Engine for FuzzEngine {
 pub fn generated() -> Option<(&'static str, String)> {
     None
 }
+
+// ------------------------------------------------------------------------------------------------ generators
+
+#[path = "fuzz_gen.rs"]
+mod generator;
